@@ -247,6 +247,55 @@ fn check_msm_any(c: &MsmCase, info: &mut Info) -> Result<(), String> {
     }
 }
 
+// ---- a rejected call must not influence later calls ------------------------------------------------------
+
+/// valid list, then a call the crate rejects (a scalar with bit 255 set: the bucket method asserts on
+/// it) whose panic is caught as a long-lived worker would, then valid lists again on the same thread
+#[derive(Clone, Debug, Serialize, Deserialize, PartialEq, Eq, Hash)]
+pub struct AfterRejected {
+    pub first: MsmCase,
+    /// which entry of `first` gets bit 255 set in the rejected call
+    pub bad_index: u8,
+    pub then: Vec<MsmCase>,
+}
+
+fn after_rejected_strategy() -> BoxedStrategy<AfterRejected> {
+    (0u8..2)
+        .prop_flat_map(|g| (msm_strategy(g), any::<u8>(), proptest::collection::vec(msm_strategy(g), 1..3)))
+        .prop_map(|(first, bad_index, then)| AfterRejected { first, bad_index, then })
+        .boxed()
+}
+
+fn rejected_call<G: HasPool>(c: &MsmCase, bad_index: usize, window: usize) -> bool
+where
+    G::F: SqrtFld,
+{
+    let mut b = build::<G>(c);
+    if b.scalars.is_empty() || b.bases.is_empty() {
+        return false;
+    }
+    let i = bad_index % b.scalars.len();
+    b.scalars[i][3] |= 1u64 << 63;
+    let refs: Vec<&[u64; 4]> = b.scalars.iter().collect();
+    // the outcome of an out-of-domain call is not specified: it may panic or return anything
+    crate::engine::cr_panics(|| G::op_sum_of_products_pippinger(&b.bases, &refs, window))
+}
+
+fn check_after_rejected(c: &AfterRejected, info: &mut Info) -> Result<(), String> {
+    let mut tmp = Info::default();
+    check_msm_any(&c.first, &mut tmp)?;
+    let window = 1 + (c.first.window as usize + 19) % 20;
+    let window = std::cmp::min(window, 12);
+    let panicked = if c.first.group == 0 { rejected_call::<G1m>(&c.first, c.bad_index as usize, window) } else { rejected_call::<G2m>(&c.first, c.bad_index as usize, window) };
+    info.class(if panicked { "out-of-domain-call-panicked" } else { "out-of-domain-call-returned" });
+    for (k, t) in c.then.iter().enumerate() {
+        let mut tmp = Info::default();
+        check_msm_any(t, &mut tmp).map_err(|m| format!("valid call #{} after a rejected (out-of-domain) call on the same thread: {}", k + 1, m))?;
+    }
+    info.nt_if(panicked);
+    Ok(())
+}
+
 // ---- window-selection heuristic: exhaustive --------------------------------------------------
 
 fn window_of(group: &str, n: usize) -> Result<usize, String> {
@@ -442,6 +491,7 @@ pub fn def() -> PropDef {
         subs: vec![
             Box::new(Sub { name: "g1-lists", rule: "G1 lists through sum_of_products / _pippinger(window) / _precomp_256", quick: 1_200, thorough: 40_000, strategy: || boxed(msm_strategy(0)), check: check_msm_any }),
             Box::new(Sub { name: "g2-lists", rule: "G2 lists, same entry points", quick: 500, thorough: 15_000, strategy: || boxed(msm_strategy(1)), check: check_msm_any }),
+            Box::new(Sub { name: "after-rejected-call", rule: "a valid list, then the same list with bit 255 set in one scalar (outside the property's domain; the panic, if any, is caught as a long-lived worker would), then 1..2 valid lists on the same thread, each compared with the model: a rejected call must not leave anything behind", quick: 200, thorough: 6_000, strategy: || boxed(after_rejected_strategy()), check: check_after_rejected }),
             Box::new(EnumSub { name: "large-windows", rule: "sum_of_products_pippinger with windows 17..=20 (a bucket pass costs ~2^w additions, so these are enumerated on one structured 7-entry list: G1 17..=20 and G2 17 in quick, both groups 17..=20 in thorough)", run: run_large, replay: replay_large, exhaustive: false }),
             Box::new(EnumSub { name: "window-heuristic", rule: "find_pippinger_window(n) within 1..=16 (enumerated; evidence counts each returned window once)", run: run_heuristic, replay: replay_heuristic, exhaustive: true }),
             Box::new(EnumSub { name: "boundary-lists", rule: "default entry point on lists of length at every window-selection boundary +-1 (up to 3464 quick; up to 60319 / 543651 thorough) so that windows up to 9 (quick) / 16 (thorough) really run", run: run_big, replay: replay_big, exhaustive: false }),
